@@ -173,10 +173,11 @@ class Run:
                 for m in re.finditer(r"\[rapid\] OK, passed (\d+) tests", text):
                     passed += int(m.group(1))
             if os.environ.get("VERIF_COLLECT") == "1":
-                for m in re.finditer(r"COLLECT (\S+) :: (.*)", text):
+                for m in re.finditer(r"COLLECT-BEGIN (\S+)\n(.*?)\nCOLLECT-END", text, re.S):
                     if m.group(1) not in self.collected:
                         self.collected[m.group(1)] = m.group(2)
-                        log("COLLECT %s :: %s" % (m.group(1), m.group(2)[:1500]))
+                        limit = int(os.environ.get("VERIF_COLLECT_CHARS", "1500"))
+                        log("COLLECT %s :: %s" % (m.group(1), m.group(2)[:limit]))
             for m in re.finditer(r"KNOWN-REPRO (\S+) (yes|no)(?: (.*))?", text):
                 self.known_lines.append((m.group(1), m.group(2), m.group(3) or ""))
             if rc == 0:
